@@ -51,10 +51,19 @@ def nonce : AnyClaim → Nat
   | stf c => c.EventNonce | bc c => c.EventNonce | bcr c => c.EventNonce | ste c => c.EventNonce | bt c => c.EventNonce
   | osu c => c.EventNonce
 
-/-- the types `AttestationHandler` stores for `ExecuteClaim` instead of executing them at once -/
-def deferred : AnyClaim → Bool
-  | stf _ | bc _ | bcr _ => true
-  | _ => false
+/-- the Go type name of the claim -/
+def typeName : AnyClaim → String
+  | stf _ => "MsgSendToFxClaim" | bc _ => "MsgBridgeCallClaim" | bcr _ => "MsgBridgeCallResultClaim"
+  | ste _ => "MsgSendToExternalClaim" | bt _ => "MsgBridgeTokenClaim" | osu _ => "MsgOracleSetUpdatedClaim"
+
+/-- `GetBlockHeight()`: the external block height the event was seen at -/
+def blockHeight : AnyClaim → Nat
+  | stf c => c.BlockHeight | bc c => c.BlockHeight | bcr c => c.BlockHeight | ste c => c.BlockHeight | bt c => c.BlockHeight
+  | osu c => c.BlockHeight
+
+/-- the types `AttestationHandler` stores for `ExecuteClaim` instead of executing them at once: the REGENERATED case list of
+the `SavePendingExecuteClaim` clause of its type switch -/
+def deferred (c : AnyClaim) : Bool := FxVerif.Gen.C03.storedTypes.contains c.typeName
 
 /-- the type and every effect-relevant field -/
 def effect : AnyClaim → AnyClaim
@@ -64,6 +73,30 @@ def effect : AnyClaim → AnyClaim
 /-- `ValidateBasic` (regenerated `validGen`) for a chain of address class `k` -/
 def valid (k : AddrKind) : AnyClaim → Bool
   | stf c => c.valid k | bc c => c.valid k | bcr c => c.valid k | ste c => c.valid k | bt c => c.valid k | osu c => c.valid k
+
+/-- the claim's own `ChainName` (NOT the chain the enclosing `MsgClaim` is routed to: nothing compares the two) -/
+def chainName : AnyClaim → Str
+  | stf c => c.ChainName | bc c => c.ChainName | bcr c => c.ChainName | ste c => c.ChainName | bt c => c.ChainName
+  | osu c => c.ChainName
+
+/-- the claim's `ValidateBasic` as the ante handler runs it: the claim's own `ChainName` is a registered chain and the
+fields have the character classes of THAT chain's address class (regenerated `validGen`) -/
+def wellFormed (c : AnyClaim) : Bool :=
+  match chainKind c.chainName with
+  | some k => c.valid k
+  | none => false
+
+/-- what the handlers read of the claim, as values: the REGENERATED `handlerView` of the claim's type -/
+def handlerView : AnyClaim → List HEntry
+  | stf c => c.handlerView | bc c => c.handlerView | bcr c => c.handlerView | ste c => c.handlerView | bt c => c.handlerView
+  | osu c => c.handlerView
+
+/-- the fields whose values occur in the handler view of a claim type, by the harness's tag of the type -/
+def viewFieldsOfTag : String → Option (List String)
+  | "stf" => some MsgSendToFxClaim.viewFields | "bc" => some MsgBridgeCallClaim.viewFields
+  | "bcr" => some MsgBridgeCallResultClaim.viewFields | "ste" => some MsgSendToExternalClaim.viewFields
+  | "bt" => some MsgBridgeTokenClaim.viewFields | "osu" => some MsgOracleSetUpdatedClaim.viewFields
+  | _ => none
 
 end AnyClaim
 
@@ -88,6 +121,8 @@ structure Exec where
 structure AState (η : Type) where
   atts : List (Att η) := []
   lastObserved : Nat := 0
+  /-- `SetLastObservedBlockHeight`: the external block height of the last observed event -/
+  lastHeight : Nat := 0
   lastByOracle : List (Nat × Nat) := []
   /-- power of the oracles that `GetOracle` finds -/
   powers : List (Nat × Nat) := []
@@ -190,12 +225,14 @@ def trySites (le : η → η → Bool) (s : AState η) (a1 : Att η) (c : AnyCla
     | some a => some (a, handed a c t.claim)
     | none => trySites le s a1 c r
 
-/-- the writes of `TryAttestation(att, claim)` once the threshold is reached: last observed nonce, the attestation marked
+/-- the writes of `TryAttestation(att, claim)` once the threshold is reached: last observed nonce and external block height
+(both taken from `claim`, the object handed in), the attestation marked
 observed and stored under the key of `claim` (`SetAttestation(claim.GetEventNonce(), claim.ClaimHash(), att)`), and the
 handler run on `claim` -/
 def observe (key : AnyClaim → η) (s : AState η) (a : Att η) (ch : AnyClaim) : AState η :=
   { s with atts := setAtt s.atts { a with observed := true, nonce := ch.nonce, hash := key ch },
            lastObserved := ch.nonce,
+           lastHeight := ch.blockHeight,
            executed := s.executed ++ [{ claim := ch, tallied := a.votes }],
            pending := if ch.deferred then setPending s.pending ch.nonce ch else s.pending }
 
